@@ -36,7 +36,7 @@ func genC09(seed uint64, run int, tier string) *RunSpec {
 	r := NewRand(seed, run)
 	g := NewGen(r)
 	spec := &RunSpec{Property: "C09", Family: "c09-concurrent", Seed: seed, Run: run}
-	entries := []string{"Vue.Render", "Vue.Render", "Load.Render", "RenderFile", "RenderString", "Vue.RenderFragment", "Base.RenderFile", "Base.RenderString"}
+	entries := []string{"Vue.Render", "Vue.Render", "Load.Render", "RenderFile", "RenderString", "Vue.RenderFragment", "Base.RenderFile", "Base.RenderString", "Load.Assign.Render", "Load.FillNil.Assign.Render"}
 	np := 1 + r.Intn(3)
 	cat := genPrograms(r, g, np, r.Chance(30), entries)
 	ntasks := 2 + r.Intn(3)
